@@ -231,6 +231,35 @@ def gen_exact(rng):
     return {"family": "exact" if over == 0 else "exact+%d" % min(over, 2), "producers": prods, "sink": {"us": 0}, "script": script}
 
 
+def gen_rush(rng):
+    """blocked sink, the backlog a little below the cap, then every producer offers one line at the same moment (barrier): the
+    room left holds exactly one of them - whichever order the producers get the lock in, one is accepted and the others are
+    dropped and counted; the backlog never exceeds the cap"""
+    np_ = rng.randint(3, 8)
+    L = rng.randint(60000, 280000)
+    room = rng.randint(L, 2 * L - 1)
+    first = rng.randint(20, 5000)
+    left = MAXSIZE - first - room
+    sizes = []
+    while left > 0:
+        n = min(left, size(rng, rng.choice(["medium", "large", "large", "small"])))
+        sizes.append(n)
+        left -= n
+    prods = [[] for _ in range(np_)]
+    prods[0] += [{"k": "bar", "i": 0}, {"k": "raw", "n": first}]
+    for p in range(np_):
+        prods[p].append({"k": "bar", "i": 1})
+    for n in sizes:
+        prods[rng.randrange(np_)].append({"k": "raw", "n": n} if n < 20 or rng.random() < 0.3 else {"k": "log", "n": n})
+    for p in range(np_):
+        prods[p] += [{"k": "bar", "i": 2}, {"k": "rush", "n": L, "parties": np_}, {"k": "bar", "i": 3}]
+    script = [{"k": "close"}, {"k": "release", "i": 0}, {"k": "arrive", "i": 1}, {"k": "blocked", "ms": 400},
+              {"k": "release", "i": 1}, {"k": "arrive", "i": 2}, {"k": "mark"},
+              {"k": "release", "i": 2}, {"k": "arrive", "i": 3}, {"k": "mark"},
+              {"k": "shutdown", "open_after_us": rng.choice([0, 1000])}]
+    return {"family": "rush", "producers": prods, "sink": {"us": 0}, "script": script}
+
+
 def gen_cut(rng):
     """producers work in phases separated by barriers; shutdown arrives at a random barrier"""
     np_ = rng.randint(1, 8)
@@ -280,6 +309,10 @@ def gen(rng, tier):
     for _ in range({"quick": 12, "thorough": 120, "search": 30}[tier]):
         sc = gen_oversize(rng)
         sc["jitter"] = rng.choice([0, 0, 2])
+        yield sc
+    for _ in range({"quick": 12, "thorough": 150, "search": 30}[tier]):
+        sc = gen_rush(rng)
+        sc["jitter"] = rng.choice([0, 0, 2, 5])
         yield sc
     for sc in _gen(rng, tier):
         # schedule widening inside the critical sections; has an effect only when the tree carries the trace hooks
@@ -381,7 +414,7 @@ def shrink_candidates(s):
                     yield dict(s, producers=prods[:i] + [[o for j, o in enumerate(p) if j not in kill]] + prods[i + 1:])
     # smaller lines
     for i, p in enumerate(prods):
-        if any(o.get("n", 0) > 40 and o["k"] in ("log", "raw") for o in p):
+        if any(o.get("n", 0) > 40 and o["k"] in ("log", "raw", "rush") for o in p):
             yield dict(s, producers=prods[:i] + [[dict(o, n=max(20, o["n"] // 2)) if o["k"] in ("log", "raw") and o.get("n", 0) > 40 else o for o in p]] + prods[i + 1:])
     sc = s.get("script", [])
     for j, o in enumerate(sc):
